@@ -117,7 +117,8 @@ def one_refine(case):
     c = dict(case)
     c["tmax"] = tmax
     want = expected_histories(case, inf_time, rec_time, init, tmax)
-    info = {"tmax": tmax, "nontrivial": any(inf_time[u] < INF and u not in init for u in range(len(labels))),
+    fin = [t for t in inf_time + rec_time if tmin <= t < min(tmax, 1e17)]
+    info = {"simtime": (max(fin) - tmin) if fin else 0.0, "tmax": tmax, "nontrivial": any(inf_time[u] < INF and u not in init for u in range(len(labels))),
             "ties": len(inf_time + rec_time) - len(set(inf_time + rec_time))}
     out = []
     rf, _, _, _ = simcases.call(c, True, sim=SimRandom(SEEDED, seed=1), tables=simcases.Tables(case, labels))
@@ -413,7 +414,7 @@ def run_one(family, rng, idx, tier):
         stats = {"evaluations": 1, "horizon_%s" % case["hpolicy"]: 1, "probe_tied_event_times": info["ties"]}
         if case["hpolicy"] != "inf":
             stats["fault_F3_horizon_cut"] = 1
-        out = {"viol": v, "stats": stats}
+        out = {"viol": v, "stats": stats, "simtime": float(info.get("simtime", 0.0))}
         if info["nontrivial"]:
             h = hashlib.sha256(repr((case["graph"], case["tabseed"], case["I0"], case["R0"], case["tmin"], info["tmax"], case["api"])).encode())
             out["keys"] = ["refine|" + h.hexdigest()[:16]]
